@@ -71,6 +71,18 @@ func init() {
 				keys = append(keys, "\r")
 			}
 			how := []string{"paste", "joined", "bytewise", "with-cursor-report"}[r.Intn(4)]
+			if r.Intn(8) == 0 {
+				// a command that reads its own argument (ReadKey), given multibyte characters cut by the reads
+				readers := [][]string{{"\x11"}, {"\x16"}, {"\x18\x0f"}, {"\x1d"}, {"\x1b\x1d"}}
+				if sp.Mode == "vi" {
+					readers = [][]string{{"\x1b", "r"}, {"\x1b", "R"}, {"\x1b", "f"}, {"\x1b", "t"}, {"\x1b", "F"}, {"\x1b", "T"}, {"\x16"}}
+				}
+				wide := []string{"é", "中", "\u0142", "\U0001f600", "\uf001"}
+				keys = append(randScript(r, 4), readers[r.Intn(len(readers))]...)
+				keys = append(keys, wide[r.Intn(len(wide))], wide[r.Intn(len(wide))])
+				keys = append(keys, randScript(r, 3)...)
+				how = "bytewise"
+			}
 			if how == "with-cursor-report" {
 				// plain editing keys: nothing that reads its own argument (it would be the one reading the terminal
 				// when the report comes), nothing that looks like a report itself (Ctrl-F3), no lone ESC
